@@ -60,9 +60,10 @@ def run(chk):
                        "(example over R: arctan (y/x), x > 0, |h| < pi/2)",
                        "planes(p,M) = planes(p) mapped by M is proved for affine M with positive determinant (rigid, uniform and "
                        "non-uniform positive scale); mirrored M (normals then point inwards: measured) and projective M are NOT covered (_partial)",
-                       "the long truncation of ZToDepth/DepthToZ and all rounding are NOT proved: measured (residue). The residue sweep "
-                       "excludes perspective frusta with (far/near)^2*width*height > 1e15, where Vec3::length overflows at float "
-                       "(probed separately, see info:float_far_plane_overflow)"]
+                       "the long truncation of ZToDepth/DepthToZ and all rounding are NOT proved: measured (residue). The RANDOM residue sweep "
+                       "excludes perspective frusta with (far/near)^2*width*height > 1e15 (bound calibration); that domain is inside the "
+                       "property's quantifier and is covered by the fixed probe obligation, which FAILS on the current tree: recorded finding "
+                       "planesM:float:far-plane-normal-overflow (Vec3::length overflows at float, far-plane normal (0,0,0), interior point culled)"]
     chk.rule = ("theorems: all frusta/points/matrices over any ordered field under the stated non-degeneracy hypotheses. "
                 "TV: structured inputs incl. zeros, signed zeros, extremes. c16_corr: frusta with near over 6 decades, far/near in "
                 "{1.001 … 1e6}, asymmetric/off-axis windows, both kinds, float and double; random rigid+uniform-scale cameras; objects on, "
@@ -166,5 +167,35 @@ def run(chk):
                      {"line": l[:900], "replay_cmd": "c16_corr %d %d" % (chk.seed, n)}, True)
         if not okrun:
             chk.fail("c16_corr", "c16_corr:run", "correspondence harness did not run", {"output": out[-1500:]}, False)
+        # fixed probe of the domain excluded from the random sweep: far/near = 1e6 with a window of several near distances, float,
+        # identity camera.  Expected: far plane (0,0,-1 | far) and the interior point visible.
+        pm = re.search(r"C16PROBE far-plane (frustum=\S+) camera=identity planes\(p,M\)\[5\]\.normal=\(([^,]+),([^,]+),([^)]+)\) distance=(\S+) "
+                       r"point=(\S+) isVisible=(\d)", out)
+        if not pm:
+            chk.oblige("probe:far-plane: planes(p,M) far plane at float, far/near = 1e6, wide window", "correspondence", False, "probe line missing")
+            chk.fail("probe:far-plane", "planesM:float:far-plane-probe:not-run", "the far-plane probe did not run", {"output": out[-800:]}, False)
+        else:
+            nx, ny, nz, dist, vis = float(pm.group(2)), float(pm.group(3)), float(pm.group(4)), float(pm.group(5)), pm.group(7) == "1"
+            normal_ok = abs(nx) <= 1e-5 and abs(ny) <= 1e-5 and abs(nz + 1) <= 1e-5 and abs(dist - 390092352.0) <= 1e-5 * 390092352.0
+            chk.oblige("probe:far-plane: planes(p,M) at float, far/near = 1e6, wide window: normal (0,0,-1), interior point visible",
+                       "correspondence", normal_ok and vis, None if (normal_ok and vis) else pm.group(0)[:400])
+            chk.count(1, 1)
+            replay = {"frustum": "Frustumf(near=390.092346, far=390092352, left=1154.62439, right=6716.17383, top=944.499451, bottom=-4814.44336, perspective)",
+                      "camera_matrix": "identity", "interior_point": "Vec3f(3000,-2000,-1000)",
+                      "real_code_returns": {"planes(p,M)[5].normal": [nx, ny, nz], "planes(p,M)[5].distance": dist,
+                                            "FrustumTest::isVisible(point)": vis},
+                      "expected": {"normal": [0, 0, -1], "distance": 390092352.0, "isVisible": True},
+                      "replay_cmd": "c16_corr %d 1   (line C16PROBE)" % chk.seed}
+            if not (normal_ok and vis):
+                if nx == 0 and ny == 0 and nz == 0:
+                    chk.fail("probe:far-plane", "planesM:float:far-plane-normal-overflow",
+                             "planes(p, M) at float: the far plane's normal is (0,0,0) (Vec3::length overflows on the far-corner cross "
+                             "product), FrustumTest then reports an interior point invisible", replay, True)
+                elif not normal_ok:
+                    chk.fail("probe:far-plane", "planesM:float:far-plane-probe:wrong-plane",
+                             "planes(p, M) at float: far plane is neither (0,0,-1 | far) nor the known degenerate (0,0,0)", replay, True)
+                else:
+                    chk.fail("probe:far-plane", "planesM:float:far-plane-probe:interior-point-invisible",
+                             "FrustumTest::isVisible is false for an interior point although the far plane is correct", replay, True)
     if chk.thorough and ok_gen:
         chk.leanchecker(PROPS)
